@@ -123,7 +123,7 @@ void LibSVMParser<IndexType, DType>::ParseBlock(
     // parse qid:id
     uint64_t qid;
     p = q;
-    while (p != end && *p == ' ') {
+    while (p != end && isblank(*p)) {
       ++p;
     }
     if (p != lend && (strncmp(p, "qid:", 4) == 0)) {
